@@ -36,6 +36,7 @@ type Case struct {
 	Out     string `json:"out"`
 	EvalAll bool   `json:"eval_all,omitempty"`
 	NullIn  bool   `json:"null_in,omitempty"`
+	NulSep  bool   `json:"nul_sep,omitempty"`
 	Gen     string `json:"gen"`
 }
 
@@ -45,12 +46,12 @@ func check(c Case) hx.Verdict {
 		// can catch: judge it in a separate, memory-limited process
 		return checkBinLimited(c)
 	}
-	o := hx.Run(c.Expr, c.Input, hx.Opts{In: c.In, Out: c.Out, EvalAll: c.EvalAll, NullIn: c.NullIn})
+	o := hx.Run(c.Expr, c.Input, hx.Opts{In: c.In, Out: c.Out, EvalAll: c.EvalAll, NullIn: c.NullIn, NulSep: c.NulSep})
 	if o.Timeout {
 		// confirm with a much longer limit before calling it a hang
 		old := hx.DefaultLimit
 		hx.DefaultLimit = 120 * time.Second
-		o = hx.Run(c.Expr, c.Input, hx.Opts{In: c.In, Out: c.Out, EvalAll: c.EvalAll, NullIn: c.NullIn})
+		o = hx.Run(c.Expr, c.Input, hx.Opts{In: c.In, Out: c.Out, EvalAll: c.EvalAll, NullIn: c.NullIn, NulSep: c.NulSep})
 		hx.DefaultLimit = old
 		if o.Timeout {
 			v := hx.Bad("hang", "no result after 120 s: expr=%q in=%s out=%s input=%q", c.Expr, c.In, c.Out, c.Input)
@@ -99,6 +100,7 @@ func genExprCase(t *rapid.T) Case {
 		c.Out = rapid.SampledFrom(outFormats).Draw(t, "out")
 	}
 	c.EvalAll = rapid.IntRange(0, 4).Draw(t, "ea") == 0
+	c.NulSep = rapid.IntRange(0, 7).Draw(t, "nul") == 0
 	c.Expr, c.Input = gen.BoundCase(c.Expr, c.Input)
 	return c
 }
@@ -124,6 +126,7 @@ func genInputCase(t *rapid.T) Case {
 		c.Out = rapid.SampledFrom(outFormats).Draw(t, "out")
 	}
 	c.EvalAll = rapid.IntRange(0, 4).Draw(t, "ea") == 0
+	c.NulSep = rapid.IntRange(0, 7).Draw(t, "nul") == 0
 	return c
 }
 
@@ -163,6 +166,9 @@ func checkBin(b BinCase) hx.Verdict {
 		args = append(args, "ea")
 	}
 	args = append(args, "-p="+c.In, "-o="+c.Out)
+	if c.NulSep {
+		args = append(args, "-0")
+	}
 	var stdin []byte
 	if c.NullIn {
 		args = append(args, "-n", "--expression", c.Expr)
